@@ -40,9 +40,13 @@ RULE = ('sender: Hypothesis draws the role of the asyncssh application '
         'WINDOW_ADJUST; receiver: asyncssh\'s advertised window/packet size, '
         'a pause/resume schedule of the reading application and peer packets '
         'sized relative to the remaining granted window (inside, exactly, '
-        'one byte over, far over, over the packet size). Non-trivial = a '
+        'one byte over, far over, over the packet size); streams: SSHReader '
+        'programs (readexactly/read/readline/read-to-EOF around and above '
+        'the window, early or late) while the peer sends as far as window '
+        'is granted. Non-trivial = a '
         'write larger than window or packet size, a pause spanning data, or '
-        'a violating peer; distinct = the case.')
+        'a violating peer, or a stream longer than the window; distinct = '
+        'the case.')
 ASSUMPTIONS = ['the peer is refpeer: its wire-level accounting is the '
                'reference (RFC 4254 5.2)',
                'WINDOW_ADJUST overflowing 2^32-1 is peer misbehaviour and not '
